@@ -124,6 +124,8 @@ def families(prop: str, tier: str, seed: int) -> List[Dict[str, Any]]:
         s += g.gen_inmem(seed, 160 * k)
     if prop in ("C03", "C04"):
         s += g.gen_sync_sat(seed, 60 * k)
+    if prop in ("C01", "C03"):
+        s += g.gen_late(seed, 80 * k)
     if prop in ("C03", "C04"):
         from engine import flow
         s += [dict(x, noconf=True) for x in flow.gen_flow_large(seed, 150 * k)]   # conformance of these: TraceFlow (FlowAbs)
